@@ -123,7 +123,14 @@ def run_case(ctx, mon, cfg_id, terms, prods, inputs_spec=None, rng=None, any_spe
                           {"smart": smart, "type": type(err).__name__, "msg": str(err)[:150]}, base_case)
             return None
     if parsers and cfg.kwargs.get('span_matchers'):
-        llmon.build_decoy(cfg)       # (another parser with other multi-line tokens is built before these are used)
+        try:
+            llmon.build_decoy(cfg)       # (another parser with other multi-line tokens is built before these are used)
+        except Exception as err:
+            # (its grammar is E -> TEXT ML W over its own multi-line tokens: as LL(1) as a grammar can be)
+            ctx.violation("ll1-grammar-rejected-by-constructor",
+                          {"smart": True, "type": type(err).__name__, "msg": str(err)[-150:],
+                           "grammar": "the one-production grammar of the decoy parser"}, base_case)
+            return None
     if len(parsers) == 1 and ctor_error is not None:
         # the grammar is fine for one factorization setting and rejected for the other
         ctx.violation("grammar-rejected-for-one-factorization-setting-only",
